@@ -94,6 +94,8 @@ def specOp (toks expect : List String) (impl : List String) : List String :=
       | _, _ => []
     | "closed" =>      -- C08: a TCP connection whose stream stops decoding (truncated, garbage, plain end) is closed
       if impl.contains "closed=1" then [] else [s!"{id} connection-left-open-after-undecodable-input"]
+    | "source" =>      -- C07: a datagram is attributed to the address it really came from, whatever else is in flight
+      if impl.any (fun t => t.startsWith "wrong-source=") then [s!"{id} datagram-attributed-to-another-source"] else []
     | "accepted" =>    -- a complete well-formed datagram is decoded whatever was received before it
       if impl.head? == some "ok" then [] else [s!"{id} well-formed-datagram-not-decoded-{impl.headD "?"}"]
     | "robust" =>
